@@ -727,6 +727,55 @@ def line_check(case):
     return sexp.dumps(["check", bool(ng), bool(co), lvl, FUEL, s_thms(case["thms"]), [s_item(i) for i in case["items"]]])
 
 
+def line_hcheck(case):
+    """The same case for the heap model: the object graph itself (objects by index)."""
+    g = case.get("graph") or to_graph(case["items"])
+    inames = list(g["items"])
+    pnames = list(g["proofs"])
+    ii = {n: k for k, n in enumerate(inames)}
+    pi = {n: k for k, n in enumerate(pnames)}
+    hitems = []
+    for n in inames:
+        id_, rule, args, prevs, th, sub = g["items"][n]
+        hitems.append([list(id_), sexp.enc(rule), s_arg(args), [list(q) for q in prevs],
+                       "N" if th is None else s_seq(th), "N" if sub is None else pi[sub]])
+    hproofs = [[ii[x] for x in g["proofs"][n]] for n in pnames]
+    ng, co, lvl = case["cfg"]
+    return sexp.dumps(["hcheck", bool(ng), bool(co), lvl, FUEL, s_thms(case["thms"]), hitems, hproofs, pi[g["root"]]])
+
+
+def parse_hcheck(line, lvl, case):
+    if line in ("bad-op", "(crash)", "(timeout)"):
+        return (line,)
+    x = sexp.loads(line)
+    if x[0] == "err":
+        return ("err", x[1])
+    w = walked(case["items"])
+    tree = sorted((p_ints(p), p_seq(t)) for p, t in x[2] if p_ints(p) in w)
+    evals = []
+    for pos, rule, comp, th in x[4]:
+        k = toy_kind(sexp.dec(rule))
+        if k and k[0] == "macro" and k[1] <= lvl and comp != "N":
+            evals.append((sexp.dec(rule), p_seq(comp)))
+    pairs = [(p_ints(p), int(i)) for p, i in x[5]]
+    return ("ok", p_seq(x[1]), tree, [p_seq(g) for g in x[3]], sorted(evals), pairs)
+
+
+def same_heap_result(m, r):
+    if m[0] != r[0]:
+        return False
+    if m[0] == "err":
+        return coarse(m[1]) == coarse(r[1])
+    if m[0] != "ok":
+        return False
+    canon = lambda q: None if q is None else (tuple(sorted(set(q[0]))), q[1])
+    return (canon(m[1]) == canon(r[1]) and [(p, canon(t)) for p, t in m[2]] == sorted((p, canon(t)) for p, t in r[2])
+            and [canon(g) for g in m[3]] == [canon(g) for g in r[3]]
+            and sorted((n, canon(t)) for n, t in m[4]) == sorted((n, canon(t)) for n, t in r[4])
+            # accepted walks are trees: no object at two walked positions
+            and len({i for _, i in m[5]}) == len(m[5]))
+
+
 def line_extend(case):
     exts = []
     for x in case["exts"]:
@@ -1549,11 +1598,27 @@ def gen_extend_pool(rng, n):
 # =============================================================================================
 # 7. Streams
 # =============================================================================================
-def stream_check(ctx, env, cases, label, oracle=True):
-    """Correspondence + oracle for a batch of check_proof cases."""
+def stream_check(ctx, env, cases, label, oracle=True, heap=False):
+    """Correspondence + oracle for a batch of check_proof cases.  heap=True: the heap model (walk
+    over the object graph) is run on the same cases as a third party."""
     impl = [env.check(c) for c in cases]
     out = ctx.lean_driver(EXE, [line_check(c) for c in cases], timeout=3000) if cases else []
     ndis = 0
+    if heap and cases:
+        hout = ctx.lean_driver(EXE, [line_hcheck(c) for c in cases], timeout=3000)
+        nh = 0
+        if hout is None:
+            ctx.broken("correspondence:c02:driver", "model driver unavailable")
+        else:
+            for idx, case in enumerate(cases):
+                hm = parse_hcheck(hout[idx], case["cfg"][2], case)
+                ctx.count("heap:%s" % label)
+                if not same_heap_result(hm, impl[idx]):
+                    nh += 1
+                    if nh <= 3:
+                        ctx.broken("correspondence:c02:heap:%s" % label, "case=%s impl=%s heap-model=%s" % (json.dumps(case), impl[idx], hm))
+                        ctx.coverage["disagreements_checked"] += 1
+            ctx.log("stream %s (heap model): %d cases, %d disagreements" % (label, len(cases), nh))
     for idx, case in enumerate(cases):
         res = impl[idx]
         nontriv = len(case["items"]) >= 2 and any(it[3] for it in case["items"])
@@ -1946,7 +2011,7 @@ def run(ctx):
         # corpus first
         corp = corpus_cases(ctx)
         if corp.get("check"):
-            stream_check(ctx, env, corp["check"], "corpus")
+            stream_check(ctx, env, corp["check"], "corpus", heap=True)
         if corp.get("extend"):
             stream_extend(ctx, env, corp["extend"], "corpus-extend")
         # (a) exhaustive citations
@@ -1971,9 +2036,9 @@ def run(ctx):
             nest = ctx.rng("nest").sample(nest, 5000)
         stream_check(ctx, env, nest, "exh-nest")
         stream_check(ctx, env, list(gen_exh_two_blocks()), "exh-blocks")
-        stream_check(ctx, env, list(gen_exh_gaps()), "exh-gaps")
-        stream_check(ctx, env, list(gen_shared_directed()), "shared-directed")
-        stream_check(ctx, env, gen_shared_random(ctx.rng("shared"), ctx.scale(1500, 30000)), "shared-random")
+        stream_check(ctx, env, list(gen_exh_gaps()), "exh-gaps", heap=True)
+        stream_check(ctx, env, list(gen_shared_directed()), "shared-directed", heap=True)
+        stream_check(ctx, env, gen_shared_random(ctx.rng("shared"), ctx.scale(1500, 30000)), "shared-random", heap=True)
         st = list(gen_exh_stated())
         if ctx.tier == "quick":
             st = ctx.rng("stated").sample(st, min(len(st), 4000))
@@ -1990,7 +2055,7 @@ def run(ctx):
         for c in cases[:4]:
             ctx.sample(c)
         for b in batches(iter(cases), 40000):
-            stream_check(ctx, env, b, "random")
+            stream_check(ctx, env, b, "random", heap=True)
         # checked_extend
         n = ctx.scale(12, 30)
         thms, proofs = gen_extend_pool(ctx.rng("extend"), n)
